@@ -4,22 +4,26 @@ import (
 	"time"
 )
 
-// keySet is a fixed-capacity open-addressing set of 64-bit keys, safe to use from norace code.
+// keySet is an open-addressing map from 64-bit state keys to the smallest deviation cost with which the
+// state has been expanded, safe to use from norace code (no Go maps, no growth while an execution runs).
 type keySet struct {
 	tab  []uint64
+	cost []uint8
 	mask uint64
 	n    int
 	full bool
 }
 
 func newKeySet(bits uint) *keySet {
-	return &keySet{tab: make([]uint64, 1<<bits), mask: 1<<bits - 1}
+	return &keySet{tab: make([]uint64, 1<<bits), cost: make([]uint8, 1<<bits), mask: 1<<bits - 1}
 }
 
-// insert adds k and reports whether it was already present.
+// insert records that state k was reached with the given cost. It reports whether the state had
+// already been expanded with a cost that is not larger (so that expanding it again cannot reach
+// anything new within the bounds).
 //
 //go:norace
-func (s *keySet) insert(k uint64) bool {
+func (s *keySet) insert(k uint64, c uint8) bool {
 	if k == 0 {
 		k = 1
 	}
@@ -33,11 +37,18 @@ func (s *keySet) insert(k uint64) bool {
 	for {
 		v := s.tab[i]
 		if v == k {
-			return true
+			if s.cost[i] <= c {
+				return true
+			}
+
+			s.cost[i] = c
+
+			return false
 		}
 
 		if v == 0 {
 			s.tab[i] = k
+			s.cost[i] = c
 			s.n++
 
 			return false
@@ -53,14 +64,15 @@ func (s *keySet) grow() {
 		return
 	}
 
-	old := s.tab
+	old, oldc := s.tab, s.cost
 	s.tab = make([]uint64, len(old)*2)
+	s.cost = make([]uint8, len(old)*2)
 	s.mask = uint64(len(s.tab) - 1)
 	s.n = 0
 
-	for _, k := range old {
+	for i, k := range old {
 		if k != 0 {
-			s.insert(k)
+			s.insert(k, oldc[i])
 		}
 	}
 }
@@ -71,8 +83,10 @@ type Options struct {
 	PreemptionBound int
 	// EnvBound limits the number of non-default environment answers (Choose); <0 = unbounded.
 	EnvBound int
-	// HBCache prunes prefixes whose happens-before key was expanded before. Only sound together with
-	// unbounded preemptions; ignored otherwise.
+	// HBCache prunes prefixes whose happens-before key (together with the running thread) was expanded
+	// before with no more deviations spent: the subtree below such a prefix is a subset of the one already
+	// explored. Sound for bounded and unbounded search as long as all inter-thread communication passes
+	// through hooked operations (DESIGN §2.2).
 	HBCache bool
 	// MaxExecs caps the number of executions (0 = no cap). Hitting it makes the result non-exhaustive.
 	MaxExecs int
@@ -126,7 +140,7 @@ func Explore(opt Options, body func(), check func(r *Result) bool) Stats {
 		SetHorizon(MaxSteps)
 	}
 
-	prune := opt.HBCache && opt.PreemptionBound < 0
+	prune := opt.HBCache
 	seen := newKeySet(16)
 
 	var (
